@@ -287,16 +287,17 @@ Fixpoint zip_with {A B C} (f : A -> B -> C) (l1 : list A) (l2 : list B) : list C
 
 (* sample = randint(10, 100, size=(size, num_features)); target = sample[:, 30] is a VIEW, so the
    two masked assignments also rewrite column 30 of the returned sample. *)
+Definition needle : nat := 30.
 Definition naive (nf size : nat) (s : list answer) : res (list (list Z) * list Z) :=
   match s with
   | [RRandintMat m] =>
       if (length m =? size)%nat &&
          forallb (fun r => (length r =? nf)%nat && forallb (fun v => (10 <=? v) && (v <? 100)) r) m then
-        if (30 <? nf)%nat then                                    (* else sample[:, 30] raises IndexError *)
-          let t0 := map (fun r => nth 30 r 0) m in
+        if (needle <? nf)%nat then                                (* else sample[:, 30] raises IndexError *)
+          let t0 := map (fun r => nth needle r 0) m in
           let t1 := map (fun v => if v <? 40 then 0 else v) t0 in   (* target[target < 40] = 0 *)
           let t2 := map (fun v => if 39 <? v then 1 else v) t1 in   (* target[target > 39] = 1 *)
-          Ok (zip_with (fun r t => set_nth 30 t r) m t2, t2)
+          Ok (zip_with (fun r t => set_nth needle t r) m t2, t2)
         else Err 41
       else Err 42
   | _ => Err 40
